@@ -286,7 +286,10 @@ def minimise(mod: Any, prop: str, v: Dict[str, Any], opts: Dict[str, Any], budge
     o["index"] = v["index"]
 
     def still(cand: List[int]) -> Optional[List[int]]:
-        r = _in_child(run_one, mod, prop, None, cand, o)
+        try:
+            r = _in_child(run_one, mod, prop, None, cand, o, watchdog_s=240)
+        except RuntimeError:
+            return None      # a candidate that kills or hangs its child is simply not a smaller reproduction
         if r["status"] == "violation" and sig_class(r["signature"]) == target:
             return r["choices"]
         return None
@@ -527,6 +530,10 @@ def main(argv: Optional[List[str]] = None) -> int:
             # not reproducible alone from a pristine interpreter: does it need what the earlier runs of its block left behind?
             sr = _in_child(_run_sequence, prop, batch_seed, tier, v["block_lo"], v["index"], opts)
             if not (sr["status"] == "violation" and sr["signature"] == sig):
+                if rc == 1:
+                    # a reproducible violation has been reported already: this further signature is left out, not believed
+                    extra_sigs.append(sig + " (did not reproduce on its own; not reported)")
+                    continue
                 print(f"HARNESS-ERROR property={prop}: violation '{sig}' (index {v['index']}, seed {v['seed']}) "
                       f"did not reproduce from its own choice record nor from its block's run sequence")
                 return 2
@@ -538,6 +545,9 @@ def main(argv: Optional[List[str]] = None) -> int:
         # independent confirmation in a fresh interpreter
         cp = subprocess.run([sys.executable, os.path.join(VERIF, "check"), prop, "--replay", path, "--quiet"],
                             capture_output=True, text=True, timeout=600)
+        if cp.returncode != 1 and rc == 1:
+            extra_sigs.append(sig + " (replay did not reproduce in a fresh interpreter; not reported)")
+            continue
         if cp.returncode != 1:
             print(f"HARNESS-ERROR property={prop}: replay file {path} does not reproduce in a fresh interpreter\n"
                   f"{cp.stdout[-2000:]}\n{cp.stderr[-2000:]}")
